@@ -152,6 +152,52 @@ def run_case_generator(model, workdir, cfg=None, timeout=1800):
     return path, dict(model=cfg, cases=n, gen_wall_s=round(time.time() - t0, 1))
 
 
+def run_trace_generator(model, workdir, cfg=None, chunks=8, timeout=1800):
+    """TLC prints whole operation sequences (kind = "trace"); they are split into `chunks` ops files, replayed on the real
+    clients (observation after every event) and returned as recorded trace files."""
+    stage_spec(workdir)
+    cfg = cfg or model
+    shutil.copyfile(os.path.join(MODELS, cfg + ".cfg"), os.path.join(workdir, cfg + ".cfg"))
+    t0 = time.time()
+    rc, out = tlc(workdir, model, cfg + ".cfg", workers=1, timeout=timeout, xmx="8g")
+    if "Model checking completed. No error has been found." not in out:
+        tail = "\n".join(l for l in out.splitlines() if not l.startswith('"{'))[-4000:]
+        raise Inconclusive("trace generator %s did not complete cleanly:\n%s" % (model, tail))
+    traces = []
+    for line in out.splitlines():
+        if line.startswith('"{'):
+            d = json.loads(json.loads(line))
+            if d.get("kind") == "trace":
+                traces.append(d["ops"])
+    if not traces:
+        raise Inconclusive("trace generator %s printed no traces" % model)
+    return replay_traces(traces, workdir, chunks), dict(model=cfg, traces=len(traces), events=sum(len(t) for t in traces),
+                                                        gen_wall_s=round(time.time() - t0, 1))
+
+
+def replay_traces(traces, workdir, chunks, observe="all"):
+    paths, procs = [], []
+    for i in range(chunks):
+        part = traces[i::chunks]
+        if not part:
+            continue
+        op = os.path.join(workdir, "ops.%d.ndjson" % i)
+        tp = os.path.join(workdir, "tr.%d.ndjson" % i)
+        with open(op, "w") as f:
+            for t in part:
+                f.write('{"op":"Reset"}\n')
+                for o in t:
+                    f.write(json.dumps(o) + "\n")
+        procs.append((subprocess.Popen([os.path.join(BUILD, "replay"), "-ops", op, "-out", tp, "-observe", observe],
+                                       stdout=subprocess.PIPE, stderr=subprocess.PIPE, text=True), tp))
+    for pr, tp in procs:
+        out, err = pr.communicate(timeout=3600)
+        if pr.returncode != 0:
+            raise Inconclusive("replay of generated traces failed: " + err[-2000:])
+        paths.append(tp)
+    return paths
+
+
 def run_lab(cases_path, workdir, chunks):
     """Run the expression lab over the cases in parallel worker groups; returns trace chunk paths."""
     lines = open(cases_path).read().splitlines()
